@@ -171,6 +171,19 @@ func registerSym(e *Engine) {
 		})
 		return nil
 	}
+	// WaitUntil blocks the calling thread until f() holds (f is harness code
+	// reading ghost state; it is re-evaluated whenever the thread could run)
+	s["WaitUntil"] = func(p *Path, th *Thread, fr *frame, a []Value) Value {
+		f := a[0]
+		p.block(th, func() bool {
+			r := p.call(th, fr, f, nil).(*Term)
+			if !r.IsConst() {
+				engErr("WaitUntil: condition must be concrete")
+			}
+			return r.Val != 0
+		})
+		return nil
+	}
 	s["Yield"] = func(p *Path, th *Thread, fr *frame, a []Value) Value { p.yield(th); return nil }
 	s["Tier"] = func(p *Path, th *Thread, fr *frame, a []Value) Value { return mkInt(int64(p.eng.tier)) }
 	s["Symbolic"] = func(p *Path, th *Thread, fr *frame, a []Value) Value { return TrueT }
